@@ -296,7 +296,12 @@ pub fn run(ctx: &mut Ctx, replay: Option<&str>) {
         // no key binding): a holder is reusable (C11), so the flow's own presentation must be what a fresh holder produces
         if ctx.evaluations % 3 == 0 {
             if let Some(s) = run.issued().cloned() {
-                let warmup = PresentArgs::plain(select_all(&f.issue.claims).as_object().cloned().unwrap_or_default());
+                let mut warm_sel = select_all(&f.issue.claims).as_object().cloned().unwrap_or_default();
+                if (ctx.evaluations / 3) % 2 == 1 {
+                    // a warm-up call that fails after collecting everything (a member that does not exist comes last)
+                    warm_sel.insert("zz\u{1}no-such-claim".into(), json!(true));
+                }
+                let warmup = PresentArgs::plain(warm_sel);
                 let mut h = holder_session(&s, f.issue.fmt, &[warmup, f.present_args()]);
                 ctx.impl_calls += 1;
                 if h.calls.len() == 2 {
